@@ -68,7 +68,7 @@ PROPS["C12"] = adm_prop("c12", 1500, 40000, "C12_dry_run (P12) for any cap, time
     partial="that the Go runtime fires the timer and stops within one second of wall time is not expressible in the model; proved: deadline arithmetic and that the loop stops at the first observation of expiry")
 
 PROPS["C13"] = {
-    "streams": [{"name": "c13", "n_quick": 500, "n_thorough": 15000}],
+    "streams": [{"name": "c13", "n_quick": 500, "n_thorough": 15000}, {"name": "c13adm", "n_quick": 800, "n_thorough": 20000}],
     "level_text": "C13_reasons: every denying built-in revision gives a non-empty reason that does not even contain the placeholder; C13_aggregate + C13_eval + C13_revisions_once: for the regenerated table (computed order condition) the evaluator returns at (level, version) exactly the standard's revisions, each once, in the fixed table order whatever the pod, and the aggregate texts list the denying ones in that order; C13_names: the names a detail lists are offenders, every explicit offender is listed, implicit ones when they are the only cause, volumes exactly; C13_detail_lists_names: the rendered text contains the quoted list. On the implementation the names are parsed out of the real detail text and P13 is evaluated on pods violating random subsets of controls with duplicate and prefix-sharing names.",
     "level_note": POD_NOTE + " The harness regexp that extracts the quoted name list from a detail string is trusted; names containing a double quote are outside the hypothesis (DNS labels).",
     "assumptions": ["container and volume names contain no double quote (API validation: DNS labels)"],
